@@ -20,15 +20,17 @@ EXTENDS RecOps, Json
 CONSTANTS TraceFile
 Trace == ndJsonDeserialize(TraceFile)
 VARIABLES l, nbeh, nbad, nsoft, done, tk
+\* nsoft: soft clause -> how often it was met (each has its own print budget of 4)
 vars == <<l, nbeh, nbad, nsoft, done, tk>>
-Init == l = 1 /\ nbeh = 0 /\ nbad = 0 /\ nsoft = 0 /\ done = FALSE /\ tk = <<>>
+Init == l = 1 /\ nbeh = 0 /\ nbad = 0 /\ nsoft = <<>> /\ done = FALSE /\ tk = <<>>
 Ev == Trace[l]
 \* the known finding and the merely counted clause must not use up the print budget of real failures
-Soft(v) == v \in {"K1_truncated_frame_after_its_first_packet_arrived_late", "N20_keyframe_flag_differs"}
+Soft(v) == v \in {"K1_truncated_frame_after_its_first_packet_arrived_late", "N20_keyframe_flag_differs",
+                 "K3_audio_track_absent_from_an_audio_video_recording"}
 Report(v) == /\ nbad' = IF v # "ok" /\ ~Soft(v) THEN nbad + 1 ELSE nbad
-             /\ nsoft' = IF Soft(v) THEN nsoft + 1 ELSE nsoft
+             /\ nsoft' = IF Soft(v) THEN [x \in DOMAIN nsoft \cup {v} |-> IF x = v THEN (IF v \in DOMAIN nsoft THEN nsoft[v] ELSE 0) + 1 ELSE nsoft[x]] ELSE nsoft
              /\ (v # "ok" /\ ~Soft(v) /\ nbad < 200 => PrintT(<<"TRACE-BAD", l, nbeh, v>>))
-             /\ (Soft(v) /\ nsoft < 8 => PrintT(<<"TRACE-BAD", l, nbeh, v>>))
+             /\ (Soft(v) /\ (v \notin DOMAIN nsoft \/ nsoft[v] < 4) => PrintT(<<"TRACE-BAD", l, nbeh, v>>))
 First(vs) == LET b == SelectSeq(vs, LAMBDA x : x # "ok") IN IF b = <<>> THEN "ok" ELSE b[1]
 Abs(x) == IF x < 0 THEN -x ELSE x
 
@@ -68,8 +70,13 @@ JudgeFile(f) ==
       Idx(num) == LET t == TrackOf(f, num) ss == Smp(num) IN [i \in 1..Len(ss) |-> FrameIdx(t, ss[i])]
       r1 == \A num \in nums : \A i \in 1..Len(Smp(num)) : Idx(num)[i] # 0
       FirstPkt(t, fr) == CHOOSE p \in PktsOfF(tk[t].frameof, fr) : \A q \in PktsOfF(tk[t].frameof, fr) : p <= q
-      k1 == \A num \in nums : LET t == TrackOf(f, num) ss == Smp(num) IN
-              \A i \in 1..Len(ss) : Idx(num)[i] = 0 => (ss[i].prefix_of > 0 /\ FirstPkt(t, ss[i].prefix_of) \in tk[t].lates)
+      \* K1 (jech/samplebuilder.pop miscounts a frame that straddles the end of its ring): every unmatched sample is a whole-packets
+      \* proper prefix of a frame that was sent, and there are no more of them than the ring can produce -- one per late arrival
+      \* (a late packet is stored before index 0, i.e. at the end of the ring) plus one per 400 packets (the ring has 513 slots)
+      k1 == \A num \in nums : LET t == TrackOf(f, num) ss == Smp(num)
+                                  trunc == {i \in 1..Len(ss) : Idx(num)[i] = 0}
+              IN /\ \A i \in trunc : ss[i].prefix_of > 0
+                 /\ Cardinality(trunc) <= 1 + Cardinality(tk[t].lates) + (Len(tk[t].frameof) \div 400)
       r2 == r1 => \A num \in nums : \A i \in 1..(Len(Smp(num)) - 1) : Idx(num)[i] < Idx(num)[i + 1]
       r3a == \A num \in nums : \A i \in 1..(Len(Smp(num)) - 1) : Smp(num)[i].tc <= Smp(num)[i + 1].tc
       \* time-code differences = RTP differences (the first sample of the track as reference), 1 ms of rounding
@@ -117,7 +124,11 @@ TFiles ==
                        (IF tk[t].kind = "video" THEN MustAfterF(tk[t].frameof, tk[t].kf, tk[t].has, tk[t].lostp, tk[t].fw) ELSE {}))
                       \subseteq Present(t, e.files)
          parsed == \A k \in 1..Len(e.files) : e.files[k].err = "" /\ Len(e.files[k].tracks) > 0
+         \* known finding K3: an audio+video recording from which the audio track is absent altogether although more than 40
+         \* audio packets were written to the recorder (seen with sender reports and cache-only packets at the head; not triaged)
+         k3 == hasvideo /\ \E t \in 1..Len(tk) : tk[t].kind = "audio" /\ Cardinality(tk[t].has) > 40 /\ Present(t, e.files) = {}
      IN Report(First(fileverdicts \o <<
+          IF parsed /\ k3 THEN "K3_audio_track_absent_from_an_audio_video_recording" ELSE "ok",
           IF parsed /\ ~r4 THEN "C20_R4_recoverable_frame_after_the_first_keyframe_is_missing" ELSE "ok",
           IF e.locals_left = 1 THEN "C20_R6_recorder_still_attached_to_the_publisher_after_closing" ELSE "ok",
           IF parsed /\ e.x.sync = 1 /\ \E k \in 1..Len(e.files) : ~SyncOK(e.files[k], e.x.tol) THEN "C20_R5_audio_and_video_do_not_share_one_time_origin" ELSE "ok">>))
@@ -125,8 +136,11 @@ TFiles ==
 TPanic == /\ Ev.ev \in {"panic", "harness-error"} /\ Report(IF Ev.ev = "panic" THEN "C12_R4_recorder_panicked" ELSE "ok") /\ UNCHANGED <<nbeh, tk>>
 Step == /\ l <= Len(Trace) /\ (TNew \/ TTrack \/ TOp \/ TFiles \/ TPanic)
         /\ l' = l + 1 /\ UNCHANGED done
+RECURSIVE SumMin4(_, _)
+SumMin4(f, D) == IF D = {} THEN 0 ELSE LET x == CHOOSE x \in D : TRUE IN (IF f[x] > 4 THEN 4 ELSE f[x]) + SumMin4(f, D \ {x})
+SoftPrinted == SumMin4(nsoft, DOMAIN nsoft)
 Finish == /\ l = Len(Trace) + 1 /\ ~done /\ done' = TRUE
-          /\ PrintT(<<"TRACE-DONE", l - 1, nbeh, 0, (IF nbad > 200 THEN 200 ELSE nbad) + (IF nsoft > 8 THEN 8 ELSE nsoft)>>)
+          /\ PrintT(<<"TRACE-DONE", l - 1, nbeh, 0, (IF nbad > 200 THEN 200 ELSE nbad) + SoftPrinted>>)
           /\ UNCHANGED <<l, nbeh, nbad, nsoft, tk>>
 Next == Step \/ Finish
 Spec == Init /\ [][Next]_vars
